@@ -173,8 +173,8 @@ pub fn prepare_loaded(sb: &Path, r: &mut Rng, allow_bad_files: bool) -> Prepared
     let mut notes = vec![];
     let mut rc = Recipe::random_valid(r);
     if rc.data.is_empty() && rc.images.is_empty() || r.chance(2, 3) {
-        rc.data = pick_keys(r, &["a.txt", "b.bin", "d/e.bin", "d/f/g", "q/r/s/t.dat", "Z"], 4, false);
-        rc.images = pick_keys(r, &["i.png", "j.png", "K.PNG"], 3, true);
+        rc.data = pick_keys(r, &DATA_KEYS, 5, false);
+        rc.images = pick_keys(r, &IMAGE_KEYS, 5, true);
     }
     let src = sb.join("src.ufo");
     build_font(&rc).0.save(&src).unwrap();
@@ -186,8 +186,9 @@ pub fn prepare_loaded(sb: &Path, r: &mut Rng, allow_bad_files: bool) -> Prepared
     }
     if allow_bad_files && r.chance(1, 3) {
         std::fs::create_dir_all(src.join("images")).unwrap();
-        std::fs::write(src.join("images/notpng.png"), b"GIF89a").unwrap();
-        notes.push("source has images/notpng.png without the PNG signature".into());
+        let bad = *r.pick(&["notpng.png", "BROKEN.PNG", "Thumbs.db", "thumb2", "x.jpg", ".DS_Store.bad", "Bad Name.Png"]);
+        std::fs::write(src.join("images").join(bad), b"GIF89a").unwrap();
+        notes.push(format!("source has images/{} without the PNG signature", bad));
     }
     // glif files under names another editor may have left (not the default for the glyph name,
     // with upper-case letters), so that later insertions can aim at a name that is taken
@@ -196,12 +197,14 @@ pub fn prepare_loaded(sb: &Path, r: &mut Rng, allow_bad_files: bool) -> Prepared
     }
     let font = Font::load(&src).unwrap();
     let mut shadow = Shadow::opened(&font, &comps("src.ufo"));
-    let mut preserve = BTreeSet::new();
-    for k in shadow.data.keys() {
-        preserve.insert((false, k.clone()));
-    }
-    for k in shadow.images.keys() {
-        preserve.insert((true, k.clone()));
+    // every file of the source's data/ and images/ (as the directory listing shows them, not as
+    // the loaded store reports them) has to survive a save in place
+    let preserve = files_of_stores(&src);
+    for (img, k) in &preserve {
+        let tracked = if *img { shadow.images.contains_key(k) } else { shadow.data.contains_key(k) };
+        if !tracked {
+            notes.push(format!("the loaded font does not track {}/{}", if *img { "images" } else { "data" }, k));
+        }
     }
     let mut p = Prepared { font, shadow: Shadow::default(), groups_ok: true, info_valid: true, loaded_from: Some(comps("src.ufo")), preserve, notes };
     // access k of n entries
@@ -220,6 +223,25 @@ pub fn prepare_loaded(sb: &Path, r: &mut Rng, allow_bad_files: bool) -> Prepared
     }
     p.shadow = shadow;
     p
+}
+
+/// the plain files below `<ufo>/data` (recursively) and directly in `<ufo>/images`: (image?, key)
+pub fn files_of_stores(ufo: &Path) -> BTreeSet<(bool, String)> {
+    let mut out = BTreeSet::new();
+    let snap = snapshot(ufo);
+    for (k, v) in &snap {
+        if v.is_none() {
+            continue;
+        }
+        if let Some(rest) = k.strip_prefix("data/") {
+            out.insert((false, rest.to_string()));
+        } else if let Some(rest) = k.strip_prefix("images/") {
+            if !rest.contains('/') {
+                out.insert((true, rest.to_string()));
+            }
+        }
+    }
+    out
 }
 
 /// rewrite some contents.plist entries of the saved source to non-default file names
@@ -500,6 +522,22 @@ pub fn expected_refusal(p: &Prepared, before: &Snap) -> Option<&'static str> {
             return Some("InvalidStoreEntry");
         }
     }
+    // a file of the source's images/ that the loaded store does not even list (and that was not
+    // removed from the font since) is an entry all the same: if it is not a PNG the save must refuse
+    if let Some(root) = &p.loaded_from {
+        for (img, k) in &p.preserve {
+            if *img && !p.shadow.images.contains_key(k) {
+                let mut q = root.clone();
+                q.push("images".into());
+                q.push(k.clone());
+                if let Some(Some(b)) = before.get(&q.join("/")) {
+                    if !is_png(b) {
+                        return Some("InvalidStoreEntry");
+                    }
+                }
+            }
+        }
+    }
     None
 }
 
@@ -758,7 +796,8 @@ pub fn history_case(seed: u64, idx: u64, out: &Path, verbose: bool) -> Vec<CaseO
     for i in 0..ni {
         let mut b = PNG.to_vec();
         b.push(i as u8);
-        rc.images.push((format!("img{}.png", i), b));
+        let ext = ["png", "PNG", "Png", "", "jpg"][(i % 5) as usize];
+        rc.images.push((if ext.is_empty() { format!("img {}", i) } else { format!("img{}.{}", i, ext) }, b));
     }
     build_font(&rc).0.save(&src).unwrap();
     let mut notes: Vec<String> = vec![];
@@ -767,8 +806,9 @@ pub fn history_case(seed: u64, idx: u64, out: &Path, verbose: bool) -> Vec<CaseO
     let mut vanish: Vec<String> = vec![];
     for e in 0..nerr {
         if r.chance(1, 2) {
-            std::fs::write(src.join(format!("images/bad{}.png", e)), b"GIF89a").unwrap();
-            notes.push(format!("images/bad{}.png is not a PNG", e));
+            let bad = format!("bad{}{}", e, *r.pick(&[".png", ".PNG", "", ".db"]));
+            std::fs::write(src.join("images").join(&bad), b"GIF89a").unwrap();
+            notes.push(format!("images/{} is not a PNG", bad));
         } else {
             let k = rc.data[r.below(rc.data.len() as u64) as usize].0.clone();
             if !vanish.contains(&k) {
@@ -780,17 +820,16 @@ pub fn history_case(seed: u64, idx: u64, out: &Path, verbose: bool) -> Vec<CaseO
     let shadow = Shadow::opened(&font, &comps("src.ufo"));
     // what every tracked entry must hold after a successful save: the bytes on disk at load
     let mut expect: std::collections::BTreeMap<(bool, String), Vec<u8>> = Default::default();
-    for k in shadow.data.keys() {
-        expect.insert((false, k.clone()), std::fs::read(src.join("data").join(k)).unwrap());
-    }
-    for k in shadow.images.keys() {
-        expect.insert((true, k.clone()), std::fs::read(src.join("images").join(k)).unwrap());
+    for (img, k) in files_of_stores(&src) {
+        let f = src.join(if img { "images" } else { "data" }).join(&k);
+        expect.insert((img, k), std::fs::read(f).unwrap());
     }
     for k in &vanish {
         std::fs::remove_file(src.join("data").join(k)).unwrap();
         notes.push(format!("data/{} vanished after load", k));
     }
-    let mut p = Prepared { font, shadow, groups_ok: true, info_valid: true, loaded_from: Some(comps("src.ufo")), preserve: BTreeSet::new(), notes };
+    let preserve: BTreeSet<(bool, String)> = expect.keys().cloned().collect();
+    let mut p = Prepared { font, shadow, groups_ok: true, info_valid: true, loaded_from: Some(comps("src.ufo")), preserve, notes };
     let mut outs = vec![];
     let mut last_target: Vec<String> = comps("src.ufo");
     // half of the stores with entries in error follow the script "save (refused), repair, save again"
@@ -869,6 +908,7 @@ pub fn history_case(seed: u64, idx: u64, out: &Path, verbose: bool) -> Vec<CaseO
                     p.shadow.data.remove(&victim.1);
                 }
                 expect.remove(&victim);
+                p.preserve.remove(&victim);
                 p.notes.push(format!("step {}: removed {}/{}", step, if victim.0 { "images" } else { "data" }, victim.1));
                 continue;
             }
